@@ -4,6 +4,7 @@ import EAO.Lemmas.UC
 import EAO.Lemmas.CHPRows
 import EAO.Lemmas.CHPCommit
 import EAO.Lemmas.CHPFuel
+import EAO.Lemmas.CHPMinLoad
 /-!
 # C06 — Plant / CHP unit commitment: runtime, downtime, ramps, starts, heat and fuel
 
@@ -253,6 +254,94 @@ theorem fuel_rows_of_ok (r : CHPR) (f : String) (hf : r.fuel = some f) (hok : r.
   rcases h8 with h8 | h8
   · rw [hheat] at h8; exact absurd h8 (by decide)
   · exact ⟨h8.1.1, h8.1.2, h8.2⟩
+
+/-! ## (6) minimum-load costs (`CHPAsset_with_min_load_costs`, model `buildMinLoad` on top of the CHP problem)
+
+Variables are identified as the code does it, through the mapping: for a power-dispatch mapping row `m`
+(`node = power node`, `var_name = 'disp'`) of step `t`, `d`, `b`, `o` are the FIRST dispatch / `bool_threshhold` /
+`bool_on` mapping rows of step `t` (`firstAt`), `th = min_load_threshhold_t·dt_t`.  The dispatch is the POWER
+dispatch, not the virtual dispatch `power + conv·heat`. -/
+
+open EAO.CHPMinLoad in
+/-- every feasible point of the built problem satisfies, per step, `th·(on − b) ≤ power` (with on-variables) resp.
+    `th·(1 − b) ≤ power` (without) -/
+theorem min_load_rows {a P : AssetProblem} {g : Grid} {thr costs : List Rat}
+    (h : addMinLoad a g thr costs = .ok P) {x : Vec} (hx : P.FeasibleRelaxed x) {m : MapRow}
+    (hm : m ∈ mapDisp a g) :
+    ∃ d b, firstAt (mapDisp a g) m.step = some d ∧ firstAt (mapBool a g) m.step = some b ∧
+      let th := thr.getD (g.idx.idxOf m.step) 0
+      ((mapOn a g = [] ∧ th * (1 - x b.var) ≤ x d.var) ∨
+       (∃ o, firstAt (mapOn a g) m.step = some o ∧ th * (x o.var - x b.var) ≤ x d.var)) :=
+  CHPMinLoad.min_load_flag h hx hm
+
+open EAO.CHPMinLoad in
+/-- at a step where the unit is on (or there are no on-variables) and the power dispatch is below the threshold, the
+    0/1 boolean is 1 — so its cost `min_load_costs·dt` is charged -/
+theorem min_load_flag_forced {a P : AssetProblem} {g : Grid} {thr costs : List Rat}
+    (h : addMinLoad a g thr costs = .ok P) {x : Vec} (hx : P.FeasibleRelaxed x) {m : MapRow}
+    (hm : m ∈ mapDisp a g) :
+    ∃ d b, firstAt (mapDisp a g) m.step = some d ∧ firstAt (mapBool a g) m.step = some b ∧
+      ((mapOn a g = [] ∧ (x d.var < thr.getD (g.idx.idxOf m.step) 0 → (x b.var = 0 ∨ x b.var = 1) → x b.var = 1)) ∨
+       (∃ o, firstAt (mapOn a g) m.step = some o ∧
+          (x o.var = 1 → x d.var < thr.getD (g.idx.idxOf m.step) 0 → (x b.var = 0 ∨ x b.var = 1) → x b.var = 1))) := by
+  obtain ⟨d, b, hd, hb, hc⟩ := CHPMinLoad.min_load_flag h hx hm
+  refine ⟨d, b, hd, hb, ?_⟩
+  rcases hc with ⟨he, hr⟩ | ⟨o, ho, hr⟩
+  · refine Or.inl ⟨he, ?_⟩
+    intro hlow h01
+    rcases h01 with h0 | h1
+    · rw [h0] at hr; grind
+    · exact h1
+  · refine Or.inr ⟨o, ho, ?_⟩
+    intro hon hlow h01
+    rcases h01 with h0 | h1
+    · rw [h0, hon] at hr; grind
+    · exact h1
+
+/-- the boolean MAY be 0 when the unit is off or at / above the threshold … -/
+theorem min_load_flag_free {d b o : MapRow} {th : Rat} {x : Vec} (hb : x b.var = 0) (hth : 0 ≤ th)
+    (ho : x o.var = 0 ∨ x o.var = 1) (hd : 0 ≤ x d.var) (h : x o.var = 0 ∨ th ≤ x d.var) :
+    (minLoadRow d b (some o) th).Sat x := by
+  rcases h with h | h
+  · exact CHPMinLoad.flag_free_when_off hb h hd
+  · exact CHPMinLoad.flag_free_above_on hb hth (by rcases ho with ho | ho <;> rw [ho] <;> decide +kernel) h
+
+/-- … and what the rows do NOT enforce: the boolean may be 1 although the unit is off or above the threshold (the row
+    is satisfied for every non-negative dispatch); this only costs money, so an optimum with positive
+    `min_load_costs` never does it, but a zero or negative cost leaves the flag arbitrary -/
+theorem min_load_flag_not_exact {d b o : MapRow} {th : Rat} {x : Vec} (hb : x b.var = 1) (hth : 0 ≤ th)
+    (ho : x o.var ≤ 1) (hd : 0 ≤ x d.var) : (minLoadRow d b (some o) th).Sat x :=
+  CHPMinLoad.flag_one_always_ok_on hb hth ho hd
+
+/-- nothing is added: empty window, `min_load_costs = None` (the default), `min_load_threshhold = None`, or every
+    threshold / every cost negative -/
+theorem min_load_nothing_added {q : MinLoadP} {a : AssetProblem} {g : Grid} {prices : Prices} {P : AssetProblem}
+    (h : buildMinLoad q a g prices = .ok P) (hn : g.T = 0 ∨ q.costs = none ∨ q.threshold = none) : P = a := by
+  rcases hn with hn | hn | hn
+  · exact CHPMinLoad.buildMinLoad_empty_window hn h
+  · exact CHPMinLoad.buildMinLoad_no_costs hn h
+  · exact CHPMinLoad.buildMinLoad_no_threshold hn h
+
+/-- otherwise the result is the parent's problem with one `[0,1]` boolean per step of the own grid, costing
+    `min_load_costs·dt`, and the rows above -/
+theorem min_load_shape {q : MinLoadP} {a : AssetProblem} {g : Grid} {prices : Prices} {P : AssetProblem}
+    (h : buildMinLoad q a g prices = .ok P) :
+    P = a ∨ ∃ thr costs, g.T ≠ 0 ∧ addMinLoad a g thr costs = .ok P ∧ P.c = a.c ++ costs ∧
+      P.l = a.l ++ List.replicate g.T 0 ∧ P.u = a.u ++ List.replicate g.T 1 := by
+  rcases CHPMinLoad.buildMinLoad_cases h with h1 | ⟨t, c, hT, h2⟩
+  · exact Or.inl h1
+  · have := CHPMinLoad.addMinLoad_ok h2
+    exact Or.inr ⟨t, c, hT, h2, this.2.2.1, this.2.2.2.1, this.2.2.2.2.1⟩
+
+/-- kernel-evaluated instance (two steps, threshold 4, cost 7): below the threshold while on the flag 0 is infeasible,
+    flag 1 feasible; flag 1 above the threshold is feasible too (not exact); off with flag 0 is feasible -/
+example : addMinLoad CHPMinLoad.exA CHPMinLoad.exG [4, 4] [7, 7] = .ok CHPMinLoad.exP ∧
+    ¬ CHPMinLoad.exP.FeasibleRelaxed (CHPMinLoad.pt [2, 6, 1, 1, 0, 0]) ∧
+    CHPMinLoad.exP.FeasibleRelaxed (CHPMinLoad.pt [2, 6, 1, 1, 1, 0]) ∧
+    CHPMinLoad.exP.FeasibleRelaxed (CHPMinLoad.pt [2, 6, 1, 1, 1, 1]) ∧
+    CHPMinLoad.exP.FeasibleRelaxed (CHPMinLoad.pt [0, 6, 0, 1, 0, 0]) :=
+  ⟨CHPMinLoad.ex_build, CHPMinLoad.ex_low_noflag_infeasible, CHPMinLoad.ex_low_flag_feasible,
+   CHPMinLoad.ex_high_flag_feasible, CHPMinLoad.ex_off_noflag_feasible⟩
 
 /-! ## link to `buildCHP` -/
 
